@@ -59,6 +59,8 @@ A_headsUp         == [][P(C04_headsUp)]_vars
 A_refusedNothing  == [][P(C04_refusedMovesNothing)]_vars
 A_refusedOnlyFew  == [][KF(C04_refusedOnlyIfFew, KF_WaitingNewcomer)]_vars
 A_shortDeck       == [][P(C04_shortDeck)]_vars
+A_buttonsStay     == [][P(C04_onlyRotationMovesButtons)]_vars
+A_drawnOnce       == [][P(C04_drawnOnce)]_vars
 A_smUnique        == [][P(C03_smUnique)]_vars
 A_smErrUnchanged  == [][P(C03_smErrorUnchanged)]_vars
 A_smMembers       == [][P(C03_smRotateKeepsMembers)]_vars
